@@ -30,6 +30,81 @@ func c05Impl(ver []byte) gmsl.IRoomVersion {
 	return v
 }
 
+
+func c05RedactPDU(setUnsigned bool) ImplFn {
+	return func(args [][]byte) ([][]byte, []byte) {
+		e, err := c05Impl(args[0]).NewEventFromTrustedJSON(args[1], false)
+		if err != nil {
+			return args[:2], B("parse-err: " + err.Error())
+		}
+		if setUnsigned {
+			if e, err = e.SetUnsigned(json.RawMessage(`{"age":5,"prev_content":{"membership":"join"},"redacted_because":{"x":1}}`)); err != nil {
+				return args[:2], B("set-unsigned-err: " + err.Error())
+			}
+		}
+		typ, sender, room, id := e.Type(), e.SenderID(), e.RoomID().String(), e.EventID()
+		var sk *string
+		if e.StateKey() != nil {
+			s := *e.StateKey()
+			sk = &s
+		}
+		was := e.Redacted()
+		e.Redact()
+		var broken []string
+		if was {
+			broken = append(broken, "was-redacted")
+		}
+		if !e.Redacted() {
+			broken = append(broken, "not-flagged")
+		}
+		if e.Type() != typ {
+			broken = append(broken, "type")
+		}
+		if e.SenderID() != sender {
+			broken = append(broken, "sender")
+		}
+		if e.RoomID().String() != room {
+			broken = append(broken, "room")
+		}
+		if e.EventID() != id {
+			broken = append(broken, "event-id "+id+" -> "+e.EventID())
+		}
+		if (sk == nil) != (e.StateKey() == nil) || sk != nil && *sk != *e.StateKey() {
+			broken = append(broken, "state-key")
+		}
+		j1 := append([]byte{}, e.JSON()...)
+		e.Redact() // second call must not change anything
+		if !bytes.Equal(j1, e.JSON()) {
+			broken = append(broken, "second-redact-differs")
+		}
+		// a fresh parse of the redacted JSON, redacted again by the algorithm, is the same text
+		again, err := c05Impl(args[0]).RedactEventJSON(j1)
+		if err != nil {
+			broken = append(broken, "re-redact-err")
+		} else if cj, err := gmsl.CanonicalJSON(again); err != nil || !bytes.Equal(cj, j1) {
+			broken = append(broken, "re-redact-differs")
+		}
+		out := append(append(append([]byte{}, j1...), '\n'), e.Content()...)
+		// every accessor after Redact(): the line the model derives from the redacted JSON ...
+		out = append(out, B("\n"+c05AccessorLine(string(args[0]), e))...)
+		// ... and all of them against a PDU parsed afresh from the event's own JSON()
+		if fresh, err := c05Impl(args[0]).NewEventFromTrustedJSON(j1, true); err != nil {
+			broken = append(broken, "own-json-unparsable")
+		} else {
+			a, b := c05AllAccessors(e), c05AllAccessors(fresh)
+			for _, k := range c05AccessorNames {
+				if a[k] != b[k] {
+					broken = append(broken, fmt.Sprintf("stale-accessor %s: %s, from own JSON: %s", k, a[k], b[k]))
+				}
+			}
+		}
+		if len(broken) > 0 {
+			out = append(out, B("\nBROKEN: "+strings.Join(broken, ","))...)
+		}
+		return args[:2], out
+	}
+}
+
 // ---------------------------------------------------------------------------------------------
 // a verifier that really checks ed25519 signatures against a fixed key table
 type c05Verifier struct {
@@ -164,72 +239,10 @@ func init() {
 		return args[:2], out
 	})
 	// [ver; event text (a PDU that NewEventFromTrustedJSON accepts)] -> JSON() \n Content() after Redact()
-	RegisterImpl("C05.redact_pdu", func(args [][]byte) ([][]byte, []byte) {
-		e, err := c05Impl(args[0]).NewEventFromTrustedJSON(args[1], false)
-		if err != nil {
-			return args[:2], B("parse-err: " + err.Error())
-		}
-		typ, sender, room, id := e.Type(), e.SenderID(), e.RoomID().String(), e.EventID()
-		var sk *string
-		if e.StateKey() != nil {
-			s := *e.StateKey()
-			sk = &s
-		}
-		was := e.Redacted()
-		e.Redact()
-		var broken []string
-		if was {
-			broken = append(broken, "was-redacted")
-		}
-		if !e.Redacted() {
-			broken = append(broken, "not-flagged")
-		}
-		if e.Type() != typ {
-			broken = append(broken, "type")
-		}
-		if e.SenderID() != sender {
-			broken = append(broken, "sender")
-		}
-		if e.RoomID().String() != room {
-			broken = append(broken, "room")
-		}
-		if e.EventID() != id {
-			broken = append(broken, "event-id "+id+" -> "+e.EventID())
-		}
-		if (sk == nil) != (e.StateKey() == nil) || sk != nil && *sk != *e.StateKey() {
-			broken = append(broken, "state-key")
-		}
-		j1 := append([]byte{}, e.JSON()...)
-		e.Redact() // second call must not change anything
-		if !bytes.Equal(j1, e.JSON()) {
-			broken = append(broken, "second-redact-differs")
-		}
-		// a fresh parse of the redacted JSON, redacted again by the algorithm, is the same text
-		again, err := c05Impl(args[0]).RedactEventJSON(j1)
-		if err != nil {
-			broken = append(broken, "re-redact-err")
-		} else if cj, err := gmsl.CanonicalJSON(again); err != nil || !bytes.Equal(cj, j1) {
-			broken = append(broken, "re-redact-differs")
-		}
-		out := append(append(append([]byte{}, j1...), '\n'), e.Content()...)
-		// every accessor after Redact(): the line the model derives from the redacted JSON ...
-		out = append(out, B("\n"+c05AccessorLine(string(args[0]), e))...)
-		// ... and all of them against a PDU parsed afresh from the event's own JSON()
-		if fresh, err := c05Impl(args[0]).NewEventFromTrustedJSON(j1, true); err != nil {
-			broken = append(broken, "own-json-unparsable")
-		} else {
-			a, b := c05AllAccessors(e), c05AllAccessors(fresh)
-			for _, k := range c05AccessorNames {
-				if a[k] != b[k] {
-					broken = append(broken, fmt.Sprintf("stale-accessor %s: %s, from own JSON: %s", k, a[k], b[k]))
-				}
-			}
-		}
-		if len(broken) > 0 {
-			out = append(out, B("\nBROKEN: "+strings.Join(broken, ","))...)
-		}
-		return args[:2], out
-	})
+	RegisterImpl("C05.redact_pdu", c05RedactPDU(false))
+	// the same after SetUnsigned on the parsed event (what a server does before it stores and later
+	// redacts an event): the unsigned member is gone after Redact() like any other removable member
+	RegisterImpl("C05.redact_pdu_setunsigned", c05RedactPDU(true))
 	// [ver; unsigned event text; signer list (comma separated server names)] ->
 	// verdict before redaction / after Redact() / on the re-parsed RedactEventJSON output
 	RegisterImpl("C05.sign_redact_verify", func(args [][]byte) ([][]byte, []byte) {
@@ -744,6 +757,73 @@ func genC05(c *Ctx) {
 				c.Run("C05.sign_redact_verify", Args(ver, txt, signers), "C05.const_ok", "", "sign "+typ)
 			}
 			c.Count("pdu/" + typ)
+		}
+	}
+
+	// 5. events whose content is ALREADY exactly what the algorithm keeps (so that redaction has
+	// nothing to do inside content) with each removable top-level member present, alone and all at
+	// once: Redact() against the model of RedactEventJSON, against the specification's top-level
+	// keep-list, and against a fresh parse of its own JSON(); also with the unsigned member put
+	// there by SetUnsigned
+	for _, ver := range c05Versions {
+		types := append(append([]string{}, c05Types...), "m.room.message", "m.room.topic")
+		for ti, typ := range types {
+			txt, _ := c05Gen{c, true}.pdu(ver, typ, 1000+ti)
+			red, err := c05Impl(B(ver)).RedactEventJSON([]byte(txt))
+			if err != nil {
+				continue
+			}
+			var rm, m map[string]json.RawMessage
+			if json.Unmarshal(red, &rm) != nil || json.Unmarshal([]byte(txt), &m) != nil {
+				continue
+			}
+			for _, k := range []string{"unsigned", "origin", "membership", "prev_state", "x", "age_ts", "redacts", "replaces_state", "prev_content"} {
+				if k == "redacts" && typ == "m.room.redaction" {
+					continue
+				}
+				delete(m, k)
+			}
+			contents := []json.RawMessage{rm["content"]}
+			if string(rm["content"]) != "{}" && (typ == "m.room.message" || typ == "m.room.member") {
+				contents = append(contents, json.RawMessage("{}"))
+			}
+			removable := [][2]string{{"unsigned", `{"age":5,"prev_content":{"membership":"join"}}`}, {"redacts", `"$dGFyZ2V0"`}, {"origin", `"a"`},
+				{"membership", `"join"`}, {"prev_state", `[]`}, {"x", `"unknown"`}, {"age_ts", `12`}, {"replaces_state", `"$cmVwbA"`}}
+			for _, content := range contents {
+				run := func(what string, add [][2]string) {
+					mm := map[string]json.RawMessage{}
+					for k, v := range m {
+						mm[k] = v
+					}
+					mm["content"] = content
+					for _, kv := range add {
+						if kv[0] == "redacts" && typ == "m.room.redaction" {
+							continue
+						}
+						mm[kv[0]] = json.RawMessage(kv[1])
+					}
+					js, err := json.Marshal(mm)
+					if err != nil {
+						return
+					}
+					c.Run("C05.redact_pdu", Args(ver, string(js)), "C05.redact_pdu", "C05.prop.accessors", "minimal content + "+what+" "+typ)
+					c.Count("pdu-minimal/" + what)
+				}
+				run("nothing", nil)
+				for _, kv := range removable {
+					run(kv[0], [][2]string{kv})
+				}
+				run("all", removable)
+				mm := map[string]json.RawMessage{}
+				for k, v := range m {
+					mm[k] = v
+				}
+				mm["content"] = content
+				if js, err := json.Marshal(mm); err == nil {
+					c.Run("C05.redact_pdu_setunsigned", Args(ver, string(js)), "C05.redact_pdu", "C05.prop.accessors", "minimal content + SetUnsigned "+typ)
+					c.Count("pdu-minimal/SetUnsigned")
+				}
+			}
 		}
 	}
 }
